@@ -43,9 +43,9 @@ TABLE = {
         (1, "configured base, as for TurtleParser"),
 }
 TABLE.update({
-    "<vocabulary::ArcBnode as sophia_api::prelude::Term>::bnode_id#index:str:agg:adt":
+    "<vocabulary::ArcBnode as sophia_api::prelude::Term>::bnode_id#index:str:RangeFrom":
         (1, "`&self[2..]` strips the `_:` every rdf_types::BlankId starts with (ArcBnode is only built from one, R8.6)"),
-    "<vocabulary::ArcBnode as sophia_api::prelude::Term>::borrow_term#index:str:agg:adt":
+    "<vocabulary::ArcBnode as sophia_api::prelude::Term>::borrow_term#index:str:RangeFrom":
         (1, "as bnode_id"),
 })
 # validator-call sites (X::new_unchecked(arg)): key -> (validator language obligation that discharges it, reason)
